@@ -324,7 +324,8 @@ PROPS["C12"] = dict(
     ],
     require=["operations-checked", "op:CreateMap", "op:DestroyMap", "op:RemoveMember(tail)-while-map-exists", "op:erase-full-or-empty-range",
              "op:growth-from-capacity-0", "op:move-assign-from-own-subnode", "op:Swap-with-own-subnode", "op:CopyFrom",
-             "histories-with-duplicate-keys(no-map)", "lookups-checked", "op:reserve-below-size", "op:Clear-then-reuse", "AtPointer-checked"],
+             "histories-with-duplicate-keys(no-map)", "lookups-checked", "op:reserve-below-size", "op:Clear-then-reuse", "AtPointer-checked",
+             "histories-starting-from-a-parsed-document"],
     assumptions=["model semantics taken from the property statement (RemoveMember moves the last member into the hole; first match for duplicate keys)",
                  "histories respect the library's ownership rules (no CopyFrom between ancestor and descendant; raw Swap with a descendant only on the pool allocator)"],
 )
